@@ -46,6 +46,7 @@ void breset()
 void bplan_fn(int tier)
 {
   bplan.payload = (int)sim_plan(2);
+  sim_set_tso(sim_plan(4) == 0);
   int maxp = tier ? 8 : 4;
   bplan.nproducers = 1 + (int)sim_plan((uint32_t)maxp);
   int budget = 20;  // history length cap for the linearizability checker (<= 24 with the final consume)
@@ -237,6 +238,7 @@ void vreset()
 void vplan_fn(int tier)
 {
   vplan.payload = (int)sim_plan(2);
+  sim_set_tso(sim_plan(4) == 0);
   vplan.nassign = (int)sim_plan(tier ? 9 : 6);
   vplan.work = (int)sim_plan(4);
   vplan.nops = (int)sim_plan(tier ? 14 : 10);
